@@ -812,5 +812,15 @@ pub fn run(ctx: &Ctx) -> Report {
         report.cov("F12_programs", json!(n));
         report.violations.extend(st.violations);
     }
+    // closures at the compiler's limits (C04's limit family): functions that capture 254..257 variables over
+    // one and two function levels, and that declare as many locals as are allowed by each declaring form,
+    // see every one of them - or the program is rejected
+    {
+        let cases = crate::c04::limit_expects(ctx, &["limit_captures", "limit_locals", "limit_locals_by_declaring_form"]);
+        let n = cases.len();
+        let st = crate::expect::run_expect(ctx, &ctx.runner_checked, cases.into_iter(), &|_e, _r| None, &|_e, _p| None);
+        report.cov("closures_at_the_capture_and_local_limits", json!(n));
+        report.violations.extend(st.violations);
+    }
     report
 }
